@@ -43,6 +43,14 @@ def cases(tier, salts):
                                 continue
                             out.append({"m": m, "n": n, "lam": lam, "reg": reg, "box": box, "x0": x0k, "conv": "closure",
                                         "scaling": False, "salt": salt})
+            # square consistent systems started at the exact solution of A x = b: the residual at x0 is zero (to rounding), the
+            # objective sum(r^2)+h(x0) is not - the 'sufficiently small at x0' exit must not fire
+            if (m, n) == shapes[1]:
+                for lam in (1e-2, 1.0, "rel0.7"):
+                    for reg in ("l1", "l2"):
+                        for box in ("none", "inactive"):
+                            out.append({"m": n, "n": n, "lam": lam, "reg": reg, "box": box, "x0": "ls", "conv": "closure",
+                                        "scaling": False, "salt": salt})
             for lam in LAMS:
                 for reg in ("l1", "l2"):
                     # regulariser + internal scaling (documented limitation: recorded as a known finding)
@@ -128,6 +136,8 @@ def check_case(case):
     ex = solvex.Execution(cfg, monitors=[mon.BoundsMonitor()]).run()
     v = []
     tags = ["conv:" + case["conv"], "reg:" + case["reg"], "box:" + case["box"]]
+    if float(np.sum((A.dot(x0) - b) ** 2)) <= 1e-12:
+        tags.append("zero_residual_at_x0")
     if isinstance(case["lam"], str):
         tags.append("strong_reg")
         if float(np.sum((A.dot(x0) - b) ** 2)) < float(np.sum((A.dot(xstar) - b) ** 2)):
@@ -185,7 +195,7 @@ def run(report, tier, seed):
     tags = gridx.run_grid(report, MOD, cs, classify=classify, chunk=3)
     cov = report.coverage
     need = ["conv:args", "conv:closure", "reg:l1", "reg:l2", "active_at_optimum", "sparse_optimum", "strong_reg",
-            "start_has_smaller_residual_than_optimum", "optimum_is_origin"]
+            "start_has_smaller_residual_than_optimum", "optimum_is_origin", "zero_residual_at_x0"]
     missing = [t for t in need if not tags.get(t)]
     if missing:
         raise common.HarnessError("C06 grid is vacuous: %s never occurred" % missing)
